@@ -741,8 +741,11 @@ impl LinkRelay<OutputHandle> {
                             // the sender and receiving a disposition indicating settlement of the
                             // delivery from the sender.
 
-                            // is_terminal
-                            true
+                            //
+                            // Only a terminal outcome is settled by the sender. A non-terminal
+                            // update (eg. `received`) must leave the delivery unsettled,
+                            // otherwise the receiver forgets it before it reports the outcome.
+                            is_terminal
                         }
                     }
                 };
